@@ -173,6 +173,17 @@ var shapes = []shape{
 		s.Client = append(s.Client, prog.Act{Op: 'h'}, prog.Act{Op: 'R'})
 		return s
 	}},
+	{"slow-rpc-inactivity-timeout", func(r *payload.SplitMix, cfg prog.Config, manual bool) *prog.Script {
+		// the server limits how long it waits for the next invoke (InactivityTimeout, set by the
+		// scenario); the RPC itself takes several times that long and must not be affected
+		s := &prog.Script{Client: []prog.Act{{Op: 's', Size: 5}}} // a small first message: the invoke goes out at once
+		for i := 0; i < 3+r.Intn(3); i++ {
+			s.Client = append(s.Client, prog.Act{Op: 'w', Size: 25 + r.Intn(30)}, prog.Act{Op: 's', Size: sizes(r, cfg) % 3000})
+		}
+		s.Client = append(s.Client, prog.Act{Op: 'h'}, prog.Act{Op: 'R'})
+		s.Handler = []prog.Act{{Op: 'R'}, {Op: 'w', Size: 30}, {Op: 's', Size: 9}}
+		return s
+	}},
 	{"size-walk", func(r *payload.SplitMix, cfg prog.Config, manual bool) *prog.Script {
 		// one direction carries a walk over size classes that makes the connection reader grow,
 		// keep, drop (after a run of more than ten small packets) and re-grow its buffers
@@ -253,6 +264,11 @@ func scenario(id string, seed uint64, sh shape, held bool, real string) runner.R
 	if real != "" {
 		cfg.Real = realTransport(real)
 		cfg.Desc += " transport=" + real
+		held = false
+	}
+	if sh.name == "slow-rpc-inactivity-timeout" {
+		cfg.Server.InactivityTimeout = 40 * time.Millisecond
+		cfg.Desc += " server-inactivity-timeout=40ms"
 		held = false
 	}
 	if sh.name == "size-walk" {
@@ -437,6 +453,11 @@ func scenario(id string, seed uint64, sh shape, held bool, real string) runner.R
 		}
 	}
 	l := x.Log(s.Tag)
+	if ran, _ := l.HandlerState(); !ran && sh.name == "slow-rpc-inactivity-timeout" {
+		// the invoke did not reach the server within its inactivity timeout (a loaded machine): the
+		// server gave up waiting, as it should; the clause under test needs the RPC to have started
+		return runner.Inconcl(id, "the server's inactivity timeout expired before the invoke arrived: "+hist)
+	}
 	evs := l.Snapshot()
 	for _, e := range evs {
 		if !e.Returned {
